@@ -2074,18 +2074,41 @@ impl<'a, R: FileManager> FrontendCtx<'a, R> {
             }
         }
 
-        let type_args = match ts_type_args {
-            Some(its) => {
-                let mut args = vec![];
-                for ty in &its.params {
-                    let arg_ty = self.extract_type(ty, file.clone())?;
-                    args.push(arg_ty);
-                }
-                args
-            }
-            None => vec![],
-        };
+        let type_args = self.extract_type_args(ts_type_args, file.clone())?;
+        self.extract_named_type_with_args(
+            type_name,
+            type_args,
+            ts_type_args.is_some(),
+            file,
+            visibility,
+            anchor,
+        )
+    }
 
+    fn extract_type_args(
+        &mut self,
+        ts_type_args: &Option<Box<TsTypeParamInstantiation>>,
+        file: BffFileName,
+    ) -> Res<Vec<Runtype>> {
+        let mut args = vec![];
+        if let Some(its) = ts_type_args {
+            for ty in &its.params {
+                let arg_ty = self.extract_type(ty, file.clone())?;
+                args.push(arg_ty);
+            }
+        }
+        Ok(args)
+    }
+
+    fn extract_named_type_with_args(
+        &mut self,
+        type_name: &TsEntityName,
+        type_args: Vec<Runtype>,
+        has_type_args: bool,
+        file: BffFileName,
+        visibility: Visibility,
+        anchor: &Anchor,
+    ) -> Res<Runtype> {
         let fat =
             self.get_runtype_name_from_ts_entity_name(type_name, file.clone(), visibility, anchor)?;
         if fat.is_builtin() {
@@ -2098,7 +2121,7 @@ impl<'a, R: FileManager> FrontendCtx<'a, R> {
         };
         let found = self.partial_validators.get(&rt_uuid);
         if let Some(_found_in_map) = found {
-            if ts_type_args.is_some() {
+            if has_type_args {
                 self.recursive_generic_uuids.insert(rt_uuid.clone());
             }
             return Ok(Runtype::ref_(rt_uuid));
@@ -2734,26 +2757,21 @@ impl<'a, R: FileManager> FrontendCtx<'a, R> {
         {
             match &import_type.qualifier {
                 Some(ts_entity_name) => {
-                    return self.extract_type_from_ts_entity_name(
+                    // only the qualifier names something of the imported module: the type arguments
+                    // are written in (and resolved against) the importing file, and a type parameter
+                    // in scope there does not capture the qualifier
+                    let type_args = self.extract_type_args(&import_type.type_args, file.clone())?;
+                    return self.extract_named_type_with_args(
                         ts_entity_name,
-                        &import_type.type_args,
+                        type_args,
+                        import_type.type_args.is_some(),
                         resolved,
                         Visibility::Export,
                         &anchor,
                     );
                 }
                 None => {
-                    let type_args = match &import_type.type_args {
-                        Some(its) => {
-                            let mut args = vec![];
-                            for ty in &its.params {
-                                let arg_ty = self.extract_type(ty, resolved.clone())?;
-                                args.push(arg_ty);
-                            }
-                            args
-                        }
-                        None => vec![],
-                    };
+                    let type_args = self.extract_type_args(&import_type.type_args, file.clone())?;
                     let new_addr = ModuleItemAddress {
                         file: resolved.clone(),
                         name: "default".to_string(),
